@@ -1,6 +1,7 @@
 package props
 
 import (
+	"encoding/json"
 	"fmt"
 	"sort"
 	"strings"
@@ -44,13 +45,16 @@ func genC14(r *rt.Rand, tier string, idx int) *world.Scenario {
 		n := 3 + r.Intn(5)
 		for i := 0; i < n; i++ {
 			// mostly the elector's own sequence (get, then create-if-absent / update), sometimes arbitrary steps
-			switch r.Weighted(45, 15, 40) {
+			switch r.Weighted(40, 15, 35, 10) {
 			case 0:
 				cl.Ops = append(cl.Ops, world.Op{K: "lget", Node: c})
 			case 1:
 				cl.Ops = append(cl.Ops, world.Op{K: "lcreate", Node: c})
 			case 2:
 				cl.Ops = append(cl.Ops, world.Op{K: "lacquire", Node: c}) // get, then create or update depending on what was seen
+			case 3:
+				// a renewal whose record is byte for byte the one last read (times have one-second resolution)
+				cl.Ops = append(cl.Ops, world.Op{K: "lsame", Node: c})
 			}
 		}
 		sc.Clients = append(sc.Clients, cl)
@@ -63,9 +67,10 @@ type lockOp struct {
 	kind     string // get create update
 	inv, ret uint64
 	err      string
-	wrote    string // bytes written on success
-	expected string // bytes the candidate had last observed when it issued an update
-	got      string // get result (raw bytes at the seam)
+	wrote    string       // bytes written on success
+	expected string       // bytes the candidate had last observed when it issued an update
+	entry    *simkv.Entry // the seam's record of the write this call issued
+	got      string       // get result (raw bytes at the seam)
 	found    bool
 }
 
@@ -148,7 +153,7 @@ func c14Custom(t *testing.T, sc *world.Scenario, out *Outcome) {
 				}
 				for _, e := range w.KV.GT[n0:] {
 					if e.Node == c && e.Class == "lock" && len(e.Muts) > 0 {
-						op.wrote = string(e.Muts[0].Val)
+						op.wrote, op.entry = string(e.Muts[0].Val), e
 					}
 				}
 				if err == nil {
@@ -156,9 +161,15 @@ func c14Custom(t *testing.T, sc *world.Scenario, out *Outcome) {
 				}
 				ops = append(ops, op)
 			}
-			doUpdate := func() {
+			doUpdate := func(same bool) {
 				s.Yield("cand.step")
 				rec := record(c)
+				if same {
+					if json.Unmarshal([]byte(lastObserved[c]), &rec) != nil {
+						return
+					}
+					out.probe("renewal-identical-to-the-record-read")
+				}
 				op := &lockOp{cand: c, kind: "update", inv: s.StepNo(), expected: lastObserved[c]}
 				n0 := len(w.KV.GT)
 				err := lk.Update(rec)
@@ -168,7 +179,7 @@ func c14Custom(t *testing.T, sc *world.Scenario, out *Outcome) {
 				}
 				for _, e := range w.KV.GT[n0:] {
 					if e.Node == c && e.Class == "lock" && len(e.Muts) > 0 {
-						op.wrote = string(e.Muts[0].Val)
+						op.wrote, op.entry = string(e.Muts[0].Val), e
 					}
 				}
 				if err == nil {
@@ -188,7 +199,11 @@ func c14Custom(t *testing.T, sc *world.Scenario, out *Outcome) {
 					if g.err != "" && !g.found {
 						doCreate()
 					} else if g.err == "" {
-						doUpdate()
+						doUpdate(false)
+					}
+				case "lsame":
+					if haveObserved[c] {
+						doUpdate(true)
 					}
 				}
 			}
@@ -238,11 +253,9 @@ func c14Custom(t *testing.T, sc *world.Scenario, out *Outcome) {
 	// ---- oracle 2: what each successful update was conditioned on must be what that candidate last observed
 	for _, op := range ops {
 		if op.kind == "update" && op.err == "" {
-			var e *simkv.Entry
-			for _, x := range writes {
-				if x.Node == op.cand && string(x.Muts[0].Val) == op.wrote {
-					e = x
-				}
+			e := op.entry
+			if e != nil && !e.Applied {
+				e = nil
 			}
 			if e == nil {
 				out.violate(P, "acked-update-not-applied", "acked-update-not-applied", "candidate %d: Update returned nil but no write of its record was applied", op.cand)
@@ -265,7 +278,9 @@ func c14Custom(t *testing.T, sc *world.Scenario, out *Outcome) {
 		}
 		hist = append(hist, porcupine.Operation{ClientId: op.cand, Input: in, Call: int64(op.inv)*2 - 1, Output: o, Return: int64(op.ret) * 2})
 		if (op.kind == "update" || op.kind == "create") && op.err == "" {
-			acquired[op.expected]++
+			if op.wrote != op.expected {
+				acquired[op.expected]++ // (a renewal that rewrites the same bytes leaves the record as it was)
+			}
 			out.probe("acquire-succeeded")
 		}
 		if (op.kind == "update" || op.kind == "create") && op.err != "" {
